@@ -5,6 +5,7 @@
    the level lvl and the formatted message msg (fmt.Sprintf: an input here). *)
 From Coq Require Import List ZArith Bool.
 Require Import MTX.Lib.Utf8 MTX.Lib.Json MTX.Model.C37_LogJson MTX.Proofs.C37_LogJson.
+Require Import MTX.Model.C37_LogDest MTX.Proofs.C37_LogDest.
 Import ListNotations.
 Local Open Scope Z_scope.
 
@@ -51,6 +52,88 @@ Print Assumptions C37_runes_partition.
 Theorem C37_valid_message_unchanged : forall s, bytes s -> valid_utf8 s = true -> sanitize s = s.
 Proof. exact sanitize_valid. Qed.
 Print Assumptions C37_valid_message_unchanged.
+
+(* ---- every destination configuration -----------------------------------------------------------
+   dest_line cf ts ck lvl msg models destinationStdout.log / destinationFile.log as a whole for the configuration
+   cf = (destination, Logger.Structured, destinationStdout.useColor i.e. "stdout is a terminal", colour library
+   switched on). With structured logging the line is the JSON line above in EVERY configuration: neither the
+   terminal nor the colour library may reach it. *)
+Theorem C37_structured_line_all_configs : forall cf ts ck lvl msg, cf_structured cf = true ->
+  dest_line cf ts ck lvl msg = render ts lvl msg.
+Proof. exact dest_line_structured. Qed.
+Print Assumptions C37_structured_line_all_configs.
+
+Theorem C37_valid_json_all_configs : forall cf ts ck lvl msg,
+  cf_structured cf = true -> bytes msg -> plain ts = true ->
+  parse_line (dest_line cf ts ck lvl msg) =
+    Some [(key_timestamp, ts); (key_level, level_name lvl); (key_message, sanitize msg)]
+  /\ one_line (dest_line cf ts ck lvl msg) = true.
+Proof. exact dest_line_parses. Qed.
+Print Assumptions C37_valid_json_all_configs.
+
+(* the level member decodes to the record's level: the four tags are pairwise distinct *)
+Theorem C37_level_decodes : forall l1 l2, 1 <= l1 <= 4 -> 1 <= l2 <= 4 -> level_name l1 = level_name l2 -> l1 = l2.
+Proof. exact level_name_inj. Qed.
+Print Assumptions C37_level_decodes.
+
+(* Why the structured branch must call writeLevel(.., false): the variant that passes d.useColor (as the plain
+   branch does) writes ESC [ ... m inside the level string; on a colour-capable terminal NO record is JSON ... *)
+Theorem C37_coloured_level_refuted : forall cf ts lvl msg,
+  cf_use_colour cf = true -> cf_colour_on cf = true -> 1 <= lvl <= 4 -> plain ts = true ->
+  parse_line (dest_line_coloured_tag cf ts lvl msg) = None.
+Proof. exact coloured_tag_not_json. Qed.
+Print Assumptions C37_coloured_level_refuted.
+
+(* ... and it is invisible in every other configuration (stdout piped, colours disabled, level outside Debug..Error) *)
+Theorem C37_coloured_level_invisible_elsewhere : forall cf ts ck lvl msg,
+  cf_structured cf = true ->
+  cf_use_colour cf && cf_colour_on cf = false \/ ~ (1 <= lvl <= 4) ->
+  dest_line_coloured_tag cf ts lvl msg = dest_line cf ts ck lvl msg.
+Proof. exact coloured_tag_harmless. Qed.
+Print Assumptions C37_coloured_level_invisible_elsewhere.
+
+(* All histories: whatever records are logged (Logger.Log serialises them under its mutex), a reader that splits
+   the destination's output at the newlines gets exactly one line per record, in order, and each line decodes to
+   its record. *)
+Theorem C37_stream_lines : forall cf rs, cf_structured cf = true -> Forall good_rec rs ->
+  lines (stream cf rs) = map (rec_line cf) rs.
+Proof. exact stream_lines. Qed.
+Print Assumptions C37_stream_lines.
+
+Theorem C37_stream_decodes : forall cf rs, cf_structured cf = true -> Forall good_rec rs ->
+  map parse_line (lines (stream cf rs)) =
+  map (fun r => Some [(key_timestamp, lr_ts r); (key_level, level_name (lr_level r));
+                      (key_message, sanitize (lr_msg r))]) rs.
+Proof. exact stream_decodes. Qed.
+Print Assumptions C37_stream_decodes.
+
+(* without structured logging the formatted message is written verbatim before the final newline *)
+Theorem C37_plain_line : forall cf ts ck lvl msg, cf_structured cf = false ->
+  exists head, dest_line cf ts ck lvl msg = head ++ [32] ++ msg ++ [10].
+Proof. exact dest_line_plain. Qed.
+Print Assumptions C37_plain_line.
+
+(* syslog (never structured): a record of level Debug..Error is handed over as its text plus at most one newline *)
+Theorem C37_syslog_text : forall lvl msg sev txt, syslog_record lvl msg = Some (sev, txt) ->
+  1 <= lvl <= 4 /\ (txt = msg \/ txt = msg ++ [10]) /\ ends_with_nl txt = true.
+Proof. exact syslog_text. Qed.
+Print Assumptions C37_syslog_text.
+
+(* non-vacuity: coloured plain line on a terminal, uncoloured file line, structured line on the same terminal,
+   the coloured-tag variant on it, itoa, lines, syslog *)
+Example C37_dest_examples :
+  let msg := [115; 101; 101; 100; 32; 34; 7] in
+  dest_line (Config 0 false true true) ts_example ck_example 1 msg =
+    [27; 91; 57; 48; 109] ++ [50; 48; 48; 51; 47; 49; 49; 47; 48; 52; 32; 50; 51; 58; 49; 53; 58; 48; 56; 32] ++ [27; 91; 48; 109]
+    ++ [27; 91; 48; 59; 51; 54; 109; 68; 69; 66; 27; 91; 48; 109] ++ [32] ++ msg ++ [10]
+  /\ dest_line (Config 1 false true true) ts_example ck_example 4 msg =
+    [50; 48; 48; 51; 47; 49; 49; 47; 48; 52; 32; 50; 51; 58; 49; 53; 58; 48; 56; 32; 69; 82; 82; 32] ++ msg ++ [10]
+  /\ dest_line (Config 0 true true true) ts_example ck_example 1 msg = render ts_example 1 msg
+  /\ parse_line (dest_line_coloured_tag (Config 0 true true true) ts_example 1 msg) = None
+  /\ itoa 7 4 = [48; 48; 48; 55] /\ itoa 12345 2 = [49; 50; 51; 52; 53] /\ itoa 0 1 = [48]
+  /\ lines [97; 10; 10; 98] = [[97; 10]; [10]; [98]]
+  /\ syslog_record 3 [97] = Some (4, [97; 10]) /\ syslog_record 0 [97] = None.
+Proof. exact dest_examples. Qed.
 
 (* The pinned tree (strconv.Quote) violated the property: for each of these messages the line is not JSON.
    Reproduced on the real destinations before the fix: 156 of the 256 single bytes gave
